@@ -726,8 +726,14 @@ class ArgSpecCache:
                 if safe_hasattr(inner_obj, "__module__") and safe_hasattr(
                     inner_obj, "__qualname__"
                 ):
+                    try:
+                        overloads = get_overloads_func(inner_obj)
+                    except Exception:
+                        # e.g. a metaclass __getattr__ that raises something
+                        # other than AttributeError
+                        continue
                     sig = self._maybe_make_overloaded_signature(
-                        get_overloads_func(inner_obj), impl, is_asynq
+                        overloads, impl, is_asynq
                     )
                     if sig is not None:
                         return sig
